@@ -1344,3 +1344,119 @@ def c15_histories(tier, seed):
     return {'name': 'operation-histories', 'evaluations': n, 'distinct_nontrivial': distinct, 'violations': viol, 'samples': samples,
             'bound': '%d scripted (evaluate / merge into the evaluated library / evaluate again) + %d random histories of length 2..%d over 3 libraries, each result compared with the single operation on freshly loaded objects' % (len(scripts), nhist, 12 if tier == 'quick' else 40),
             'rule': 'a case is one history; distinct by seed'}
+
+
+# ---------------------------------------------------------------------------------------------- C11
+def c11_algebra(tier, seed):
+    """random expressions over quantities (chains of *, /, ** with integer and fractional powers, then +, -, the six comparisons, abs, neg)
+    against an independent model: a quantity is (SI magnitude, 7 exact Fraction exponents); + - < <= > >= demand equal exponents (a bare zero
+    is the only plain number accepted), == is False and != True across dimensions, * / ** add / subtract / scale exponents and give a plain
+    number when all exponents cancel"""
+    from fractions import Fraction as F
+    from pgradd.Units import eval_qty
+    from pgradd.Error import UnitsError
+    rnd = random.Random(seed)
+    base = {'m': (1.0, (1, 0, 0, 0, 0, 0, 0)), 's': (1.0, (0, 0, 1, 0, 0, 0, 0)), 'kg': (1.0, (0, 1, 0, 0, 0, 0, 0)), 'kJ': (1000.0, (2, 1, -2, 0, 0, 0, 0)),
+            'K': (1.0, (0, 0, 0, 0, 1, 0, 0)), 'cm': (0.01, (1, 0, 0, 0, 0, 0, 0))}
+    Z = (0,) * 7
+
+    def leaf():
+        if rnd.random() < 0.15:
+            v = rnd.choice([0, 0.0, 2, 1e-9, -3.5])
+            return ('num', v), v, (float(v), tuple(F(0) for _ in range(7)))
+        nm = rnd.choice(list(base))
+        k = rnd.choice([1.0, 2.0, 0.5, -3.0, 0.0])
+        q = k * eval_qty('1 ' + nm)
+        return ('qty', k, nm), q, (k * base[nm][0], tuple(F(e) for e in base[nm][1]))
+
+    def build(depth):
+        """-> (description, real value, model (mag, exps))"""
+        if depth == 0 or rnd.random() < 0.3:
+            return leaf()
+        op = rnd.choice(['*', '/', '**', '**', '*'])
+        d1, r1, m1 = build(depth - 1)
+        if op == '**':
+            # fractional powers are dyadic (0.5, 0.25, 1.5): their sums and products are exact in binary floating point, so that the exact
+            # comparison of exponents in the real code and the Fraction model agree (1/3 + 2/3 != 1 in floats is round-off, outside this property)
+            p = rnd.choice([2, 3, -1, 0.5, 0.25, 1.5, 2.0, 0, -2])
+            pf = float(p)
+            if m1[0] < 0 and pf != int(pf):
+                p, pf = 2, 2.0
+            if m1[0] == 0 and pf <= 0:
+                p, pf = 2, 2.0
+            return ('**', d1, str(p)), r1 ** (p if not isinstance(p, F) else float(p)), (m1[0] ** pf, tuple(e * F(p).limit_denominator(1000) for e in m1[1]))
+        d2, r2, m2 = build(depth - 1)
+        if op == '*':
+            return ('*', d1, d2), r1 * r2, (m1[0] * m2[0], tuple(a + b for a, b in zip(m1[1], m2[1])))
+        if m2[0] == 0:
+            return ('*', d1, d2), r1 * r2, (m1[0] * m2[0], tuple(a + b for a, b in zip(m1[1], m2[1])))
+        return ('/', d1, d2), r1 / r2, (m1[0] / m2[0], tuple(a - b for a, b in zip(m1[1], m2[1])))
+
+    def parts(r):
+        """(SI magnitude, exponents) of a real result"""
+        if hasattr(r, 'units'):
+            return float(r.value), tuple(F(float(e)).limit_denominator(1000) for e in r.units.exps)
+        return float(r), tuple(F(0) for _ in range(7))
+    viol, n, distinct, samples = [], 0, 0, []
+    N = 400 if tier == 'quick' else 4000
+    with real.quiet():
+        for it in range(N):
+            try:
+                d1, r1, m1 = build(rnd.choice([1, 2, 3]))
+                if rnd.random() < 0.5 and any(e != 0 for e in m1[1]):
+                    # the SAME dimension built another way (product of SI base units raised to the exponents): must be compatible
+                    k = rnd.choice([1.5, -2.0, 1.0])
+                    r2, mag = k, k
+                    for nm_, e in zip(('m', 'kg', 's', 'A', 'K', 'mol', 'cd'), m1[1]):
+                        if e != 0:
+                            r2 = r2 * eval_qty('1 ' + nm_) ** (int(e) if e.denominator == 1 else float(e))
+                    d2, m2 = ('same-dimension', k), (mag, m1[1])
+                else:
+                    d2, r2, m2 = build(rnd.choice([0, 1, 2]))
+            except (ZeroDivisionError, OverflowError):
+                continue
+            n += 1
+            g1 = parts(r1)
+            ok1 = g1[1] == m1[1] and real.close(g1[0], m1[0], 1e-9, 1e-300) and (hasattr(r1, 'units') == any(e != 0 for e in m1[1]))
+            if not ok1:
+                if len(viol) < 12:
+                    viol.append({'id': 'value-%d' % it, 'input': str(d1), 'observed': [g1[0], [str(e) for e in g1[1]], type(r1).__name__], 'expected': [m1[0], [str(e) for e in m1[1]]]})
+                continue
+            distinct += 1
+            same_dim = m1[1] == m2[1]
+            bare_zero = lambda m, r: all(e == 0 for e in m[1]) and m[0] == 0 and not hasattr(r, 'units')
+            compatible = same_dim or bare_zero(m1, r1) or bare_zero(m2, r2)
+            if not (hasattr(r1, 'units') or hasattr(r2, 'units')):
+                continue
+            for opn, f, mf in (('+', lambda a, b: a + b, lambda a, b: a + b), ('-', lambda a, b: a - b, lambda a, b: a - b),
+                               ('<', lambda a, b: a < b, lambda a, b: a < b), ('<=', lambda a, b: a <= b, lambda a, b: a <= b),
+                               ('>', lambda a, b: a > b, lambda a, b: a > b), ('>=', lambda a, b: a >= b, lambda a, b: a >= b),
+                               ('==', lambda a, b: a == b, lambda a, b: a == b), ('!=', lambda a, b: a != b, lambda a, b: a != b)):
+                n += 1
+                try:
+                    got = ('ok', f(r1, r2))
+                except UnitsError:
+                    got = ('UnitsError', None)
+                except Exception as e:    # noqa
+                    got = (type(e).__name__, None)
+                if opn in ('==', '!='):
+                    want = ('ok', mf(m1[0], m2[0]) if compatible else (opn == '!='))
+                    close_call = compatible and abs(m1[0] - m2[0]) <= 1e-9 * max(abs(m1[0]), abs(m2[0]))
+                    good = got[0] == 'ok' and (close_call or bool(got[1]) == want[1])
+                elif not compatible:
+                    want = ('UnitsError', None)
+                    good = got[0] == 'UnitsError'
+                elif opn in ('+', '-'):
+                    want = ('ok', mf(m1[0], m2[0]))
+                    good = got[0] == 'ok' and real.close(parts(got[1])[0], want[1], 1e-9, 1e-12 * max(abs(m1[0]), abs(m2[0]), 1e-300))
+                else:
+                    want = ('ok', mf(m1[0], m2[0]))
+                    close_call = abs(m1[0] - m2[0]) <= 1e-9 * max(abs(m1[0]), abs(m2[0]))
+                    good = got[0] == 'ok' and (close_call or bool(got[1]) == want[1])
+                if not good and len(viol) < 12:
+                    viol.append({'id': 'op-%d-%s' % (it, opn), 'input': {'a': str(d1), 'op': opn, 'b': str(d2)}, 'observed': str(got), 'expected': str(want)})
+            if len(samples) < 3:
+                samples.append({'a': str(d1), 'b': str(d2)})
+    return {'name': 'quantity-algebra-random-expressions', 'evaluations': n, 'distinct_nontrivial': distinct, 'violations': viol, 'samples': samples,
+            'bound': '%d random pairs of expressions (depth <= 3; dyadic powers 2, 3, -1, 0.5, 0.25, 1.5, 0, -2; half of the partners have the same dimension built another way) x 8 binary operations, against exact Fraction exponents' % N,
+            'rule': 'a case is (expression a, operation, expression b); non-trivial = a evaluates to the modelled magnitude and exponents'}
